@@ -77,7 +77,135 @@ Lemma new_taxon_ext : forall st n l st' x,
   new_taxon st n l = (st', x) ->
   ext n st st' /\ x = length (s_lab st) /\ s_lab st' = s_lab st ++ [l] /\ members st' n = members st n ++ [x].
 Proof.
-  intros st n l st' x H. unfold new_taxon, alloc_taxon in H. cbn [fst snd] in H. inv_pair H.
-Abort.
+  intros st n l st' x H. unfold new_taxon, alloc_taxon in H. injection H as H1 H2. subst st' x.
+  assert (M : members (set_members
+             (mkSt (s_lab st ++ [l]) (s_mem st) (s_cs st) (s_nns st) (s_trees st) (s_lists st) (s_mats st) (s_dss st))
+             n (members st n ++ [length (s_lab st)])) n = members st n ++ [length (s_lab st)])
+    by apply members_set_members_same.
+  split; [|split; [reflexivity|]; split; [reflexivity | exact M]].
+  split; [exists [l]; reflexivity|]. split; [exists [length (s_lab st)]; exact M | reflexivity].
+Qed.
+
+Lemma require_taxon_first : forall st n l st' t,
+  require_taxon lower st n l (ns_cs st n) = (st', t) -> wf_ns n st ->
+  ext n st st' /\ wf_ns n st' /\ first_match lower st' n (ns_cs st n) l = Some t.
+Proof.
+  intros st n l st' t H W. unfold require_taxon in H.
+  destruct (first_match lower st n (ns_cs st n) l) as [y|] eqn:E.
+  - injection H as H1 H2. subst st' t. split; [apply ext_refl|]. split; [exact W | exact E].
+  - destruct (new_taxon_ext _ _ _ _ _ H) as [X [Ex [EL EM]]]. split; [exact X|]. split.
+    + intros y Hy. rewrite EM in Hy. rewrite EL, app_length. simpl. apply in_app_or in Hy.
+      destruct Hy as [Hy|[Hy|[]]]; [specialize (W y Hy); lia | subst; lia].
+    + unfold first_match in *. rewrite EM, find_app.
+      assert (E' : find (matches lower st' (ns_cs st n) l) (members st n) = None).
+      { rewrite <- E. apply find_ext_in. intros y Hy. unfold matches.
+        rewrite (label_ext n st st' y X (W y Hy)). reflexivity. }
+      rewrite E'. simpl. unfold matches. assert (Lx : label st' t = l).
+      { unfold label. rewrite EL, Ex, app_nth2 by lia. rewrite Nat.sub_diag. reflexivity. }
+      rewrite Lx, Nat.eqb_refl. reflexivity.
+Qed.
+
+(* the memo only holds what a look-up by label would give *)
+Definition memo_ok (n : oid) (cs : bool) (st : state) (memo : list (oid * oid)) : Prop :=
+  forall x t, alookup x memo = Some t ->
+              x < length (s_lab st) /\ first_match lower st n cs (label st x) = Some t.
+
+Lemma memo_ok_ext : forall n cs st st' memo,
+  ext n st st' -> wf_ns n st -> memo_ok n cs st memo -> memo_ok n cs st' memo.
+Proof.
+  intros n cs st st' memo X W H x t A. destruct (H x t A) as [V F]. split.
+  - pose proof (ext_len n st st' X). lia.
+  - rewrite (label_ext n st st' x X V). eapply first_match_stable; eassumption.
+Qed.
+
+Lemma recon_unify_spec : forall n cs refs st memo st' refs' memo',
+  recon_refs lower st n true refs memo = (st', refs', memo') ->
+  ns_cs st n = cs -> wf_ns n st -> memo_ok n cs st memo ->
+  (forall x, In x refs -> x < length (s_lab st)) ->
+  ext n st st' /\ wf_ns n st' /\ memo_ok n cs st' memo'
+  /\ Forall2 (fun l t => first_match lower st' n cs l = Some t) (map (label st) refs) refs'.
+Proof.
+  intros n cs refs. induction refs as [|x r IH]; intros st memo st' refs' memo' H Ecs W Mo V; cbn [recon_refs] in H.
+  - injection H as H1 H2 H3. subst. split; [apply ext_refl|]. split; [exact W|]. split; [exact Mo | constructor].
+  - cbn [orb] in H. destruct (alookup x memo) as [t|] eqn:A.
+    + destruct (Mo x t A) as [Vx F]. destruct (first_match_some _ _ _ _ _ F) as [I _].
+      assert (Eadd : add_member st n t = st).
+      { unfold add_member. assert (Mb : memb t (members st n) = true) by (apply memb_In; exact I). rewrite Mb. reflexivity. }
+      rewrite Eadd in H.
+      destruct (recon_refs lower st n true r memo) as [[st2 r2] m2] eqn:R. injection H as H1 H2 H3. subst.
+      destruct (IH _ _ _ _ _ R eq_refl W Mo) as [X [W2 [Mo2 F2]]]; [intros y Hy; apply V; right; exact Hy|].
+      split; [exact X|]. split; [exact W2|]. split; [exact Mo2|]. simpl. constructor; [|exact F2].
+      eapply first_match_stable; eassumption.
+    + destruct (require_taxon lower st n (label st x) (ns_cs st n)) as [st1 t] eqn:Q.
+      destruct (recon_refs lower st1 n true r ((x, t) :: memo)) as [[st2 r2] m2] eqn:R.
+      injection H as H1 H2 H3. subst.
+      destruct (require_taxon_first _ _ _ _ _ Q W) as [X1 [W1 F1]].
+      assert (Vx : x < length (s_lab st)) by (apply V; left; reflexivity).
+      assert (Ecs1 : ns_cs st1 n = ns_cs st n) by apply X1.
+      destruct (IH _ _ _ _ _ R Ecs1 W1) as [X2 [W2 [Mo2 F2]]].
+      * intros y t0 A0. rewrite alookup_cons in A0. destruct (Nat.eqb y x) eqn:Eq.
+        -- apply Nat.eqb_eq in Eq. subst y. injection A0 as A0. subst t0.
+           split; [pose proof (ext_len n st st1 X1); lia|]. rewrite (label_ext n st st1 x X1 Vx). exact F1.
+        -- apply (memo_ok_ext n (ns_cs st n) st st1 memo X1 W Mo y t0 A0).
+      * intros y Hy. pose proof (ext_len n st st1 X1). specialize (V y (or_intror Hy)). lia.
+      * split; [eapply ext_trans; eassumption|]. split; [exact W2|]. split; [exact Mo2|].
+        simpl. constructor.
+        -- eapply first_match_stable; eassumption.
+        -- assert (Em : map (label st1) r = map (label st) r).
+           { apply map_ext_in. intros y Hy. apply (label_ext n st st1 y X1). apply V. right. exact Hy. }
+           rewrite <- Em. exact F2.
+Qed.
+
+(* tree.migrate_taxon_namespace(n) / reconstruct: the node taxa before and after *)
+Lemma migrate_tree_unifies : forall st tr n,
+  tr < length (s_trees st) -> wf_ns n st ->
+  (forall x, In x (t_refs (gettree st tr)) -> x < length (s_lab st)) ->
+  let st' := fst (migrate_tree lower st tr n true []) in
+  let refs := t_refs (gettree st tr) in
+  let refs' := t_refs (gettree st' tr) in
+  let k := key lower (ns_cs st n) in
+  t_ns (gettree st' tr) = n /\ length refs' = length refs
+  /\ (forall i, i < length refs ->
+        In (nth i refs' 0) (members st' n) /\ k (label st' (nth i refs' 0)) = k (label st (nth i refs 0)))
+  /\ (forall i j, i < length refs -> j < length refs ->
+        (nth i refs' 0 = nth j refs' 0 <-> k (label st (nth i refs 0)) = k (label st (nth j refs 0)))).
+Proof.
+  intros st tr n V W Vr. unfold migrate_tree.
+  destruct (recon_refs lower st n true (t_refs (gettree st tr)) []) as [[st1 refs'] memo'] eqn:R. cbn [fst].
+  destruct (recon_unify_spec n (ns_cs st n) _ _ _ _ _ _ R eq_refl W) as [X [W1 [_ F]]].
+  { intros x t A. discriminate. }
+  { exact Vr. }
+  assert (G : gettree (set_tree st1 tr (mkTree n refs')) tr = mkTree n refs').
+  { unfold gettree. simpl. apply nth_error_some_nth.
+    assert (T : length (s_trees st1) = length (s_trees st)).
+    { clear - R. revert R. generalize (@nil (oid * oid)). generalize st at 1 3. revert st1 refs' memo'.
+      induction (t_refs (gettree st tr)) as [|y ys IHy]; intros st1 refs' memo' s0 m0 R; cbn [recon_refs] in R.
+      - injection R as R1 R2 R3. subst. reflexivity.
+      - cbn [orb] in R. destruct (alookup y m0).
+        + destruct (recon_refs lower (add_member s0 n o) n true ys m0) as [[sa ra] ma] eqn:Q. injection R as R1 R2 R3. subst.
+          rewrite (IHy _ _ _ _ _ Q). unfold add_member. destruct (memb o (members s0 n)); reflexivity.
+        + destruct (require_taxon lower s0 n (label s0 y) (ns_cs s0 n)) as [sb tb] eqn:Q0.
+          destruct (recon_refs lower sb n true ys ((y, tb) :: m0)) as [[sa ra] ma] eqn:Q. injection R as R1 R2 R3. subst.
+          rewrite (IHy _ _ _ _ _ Q). unfold require_taxon in Q0. destruct (first_match lower s0 n (ns_cs s0 n) (label s0 y)).
+          * injection Q0 as Q1 Q2. subst. reflexivity.
+          * unfold new_taxon, alloc_taxon in Q0. injection Q0 as Q1 Q2. subst. reflexivity. }
+    destruct (nth_error (s_trees st1) tr) eqn:E; [eapply nth_error_upd_same; exact E|].
+    apply nth_error_None in E. lia. }
+  rewrite G. cbn [t_ns t_refs].
+  set (refs := t_refs (gettree st tr)) in *.
+  assert (Len : length refs' = length refs).
+  { apply Forall2_length in F. rewrite map_length in F. symmetry. exact F. }
+  assert (P : forall i, i < length refs ->
+            first_match lower st1 n (ns_cs st n) (label st (nth i refs 0)) = Some (nth i refs' 0)).
+  { intros i Hi. pose proof (Forall2_nth _ _ _ _ _ (label st 0) 0 i F) as Q. cbv beta in Q.
+    rewrite map_length in Q. specialize (Q Hi). rewrite map_nth in Q. exact Q. }
+  split; [reflexivity|]. split; [exact Len|]. split.
+  - intros i Hi. destruct (first_match_some _ _ _ _ _ (P i Hi)) as [I K]. split; [exact I | symmetry; exact K].
+  - intros i j Hi Hj. split.
+    + intro E. destruct (first_match_some _ _ _ _ _ (P i Hi)) as [_ Ki].
+      destruct (first_match_some _ _ _ _ _ (P j Hj)) as [_ Kj]. rewrite Ki, Kj, E. reflexivity.
+    + intro E. pose proof (first_match_key st1 n (ns_cs st n) _ _ E) as Q. rewrite (P i Hi), (P j Hj) in Q.
+      injection Q as Q. exact Q.
+Qed.
 
 End WithLower.
